@@ -13,13 +13,17 @@ Scope (stated bound)
    {image, vm, both, install, none, net+image, only vm2 image, empty string} x global unset_mode {fi fa ff ri ra rf ai ii
    xx '' unset} x one suffixed override (unset_mode_<vm>, _images, _vms, _images_<vm>, _vms_<vm>, _image1_<vm>) x
    pool_filter {reuse block copy bogus '' unset} x pool_scope (all 16 subsets + unset, with copy) x runtime `vms`
-   selections x door {ok, ShellCmdError}.  quick: systematic slices of that product; thorough: wider product (capped).
+   selections x door {ok, ShellCmdError}.  quick: systematic slices of that product (every mode x every filter; one
+   override {fi,ri,ai} over global {fi,ri} x {reuse,copy(,bogus)}; all scopes with copy; all selections); thorough: every mode x every override
+   x every filter for every layout (about 92k settings, complete unless the time budget is hit, else seeded sample).
+   Unrealistic mixes are judged by the "only if" direction alone (f. and r. objects in one node; a permanent install
+   next to other states).
  B scan_states: same shapes x state layouts x check_mode {unset, global, per vm} x shared_pool {global, per vm} x fake
    pool populations (all subsets of the checked states up to 3/5 checks, else all/none/one missing) + two error outputs.
  C pull_locations / shared_result_worker_ids: child tutorial3 (vm1, vm2) on net1 (thorough: also net2), 1..2 parents
    (tutorial1, connect) each parsed for net1..net4, bridged or not, edges via {vm1},{vm1,vm2},{net,vm1},{net},
-   (vm1|vm2),(vm1|vm1); results lists of length <=2 (thorough <=3; two parents <=1 resp. <=2) over statuses
-   PASS/FAIL/UNKNOWN (thorough +WARN) x result names of net1, net2, net4 and the unregistered net9; 1..3 workers
+   (vm1|vm2),(vm1|vm1),(net+vm1|vm1+vm2); results lists of length <=2 (thorough <=3; two parents <=1 and <=1, thorough <=2 and <=1) over statuses
+   PASS/FAIL/UNKNOWN (thorough +WARN for one parent) x result names of net1, net2, net4 and the unregistered net9; 1..3 workers
    registered in TestSwarm.run_swarms (thorough: also split over two swarms); prefilled get_location; flat node.
 
 Obligations (one clause each)
@@ -320,15 +324,16 @@ def case_scan(inp):
     out = []
     node, worker = build_ab(inp)
     raw = dict(node.params)
-    want, permanent_install = {}, False
+    want, permanent_install, given = {}, False, []
     for o in node.objects:
         state = resolve(raw, "set_state", chain_of(o))
         if not state:
             continue
+        sfx = f"_{o.key}_{o.long_suffix}"
         if state == "install" and o.is_permanent():
             permanent_install = True
+            given.append("check_state" + sfx)
             continue
-        sfx = f"_{o.key}_{o.long_suffix}"
         want["check_state" + sfx] = state
         want["show_location" + sfx] = ":" + resolve(raw, "shared_pool", chain_of(o))
         want["check_mode" + sfx] = resolve(raw, "check_mode", chain_of(o), "rf")
@@ -351,6 +356,8 @@ def case_scan(inp):
         # judged only for a truthful door and when no other object of the node carries a state (the shape of real install nodes)
         if not checks and behaviour == "pool" and (exc is not None or verdict is not False):
             fail(out, "B4_permanent_install_given", inp, seen, False, "permanent-install-rescanned")
+        if any(k in (r["params"] or {}) for r in reqs for k in given):
+            fail(out, "B4_permanent_install_given", inp, seen, "no check of " + " ".join(given), "permanent-install-checked")
         return out
     if not checks:
         if exc is not None or verdict is not True or reqs:
@@ -418,7 +425,7 @@ def case_pull(inp):
             visible = set()
             for named, status, holder in (inp["results"][g] if g < len(inp["results"]) else []):
                 name = twins[named].params["name"] if named in twins else twins["net1"].params["name"].replace("net1", named)
-                holder = holder if holder in twins else me
+                holder = named if holder == "named" and named in twins else me      # a replayed result sits on the own node
                 twins[holder].results.append({"name": name, "status": status, "time_elapsed": "1"})
                 if status == "PASS" and named in registered and (inp.get("bridged", True) or holder == me):
                     visible.add(named)
@@ -591,14 +598,14 @@ def gen_pull(thorough, rnd):
     registrations = [[["net1"]], [["net1", "net2"]], [["net1", "net2", "net4"]]] + ([[["net1", "net4"], ["net2"]]] if thorough else [])
     children = ["net1", "net2"] if thorough else ["net1"]
 
-    def lists(maxlen, holders):
+    def lists(maxlen, holders, statuses=statuses):
         alphabet = [[n, s, h] for n in names for s in statuses for h in holders]
         for ln in range(maxlen + 1):
             for combo in itertools.product(alphabet, repeat=ln):
                 yield [list(x) for x in combo]
     for me in children:
         for reg in registrations:
-            if me not in [n for names_ in reg for n in names_]:
+            if me not in [n for names_ in reg for n in names_] or (me != "net1" and len(reg) == 1 and len(reg[0]) != 2):
                 continue
             for bridged in (True, False):
                 for edges in ("vm1", "vm1+vm2", "net+vm1", "net"):
@@ -609,9 +616,8 @@ def gen_pull(thorough, rnd):
                         yield {"part": "C", "child": me, "registered": reg, "bridged": bridged, "edges": "vm1", "results": [res], "prefill": prefill}
                     yield {"part": "C", "child": me, "registered": reg, "bridged": bridged, "edges": "vm1+vm2", "results": [res], "flat": True}
                 for edges in ("vm1|vm2", "vm1|vm1", "net+vm1|vm1+vm2"):
-                    two = list(lists(2 if thorough else 1, ["named"]))
-                    for r1 in two:
-                        for r2 in two:
+                    for r1 in list(lists(2 if thorough else 1, ["named"], statuses[:3])):
+                        for r2 in list(lists(1, ["named"], statuses[:3])):
                             yield {"part": "C", "child": me, "registered": reg, "bridged": bridged, "edges": edges, "results": [r1, r2]}
             for unknown in ("net9", "net4" if "net4" not in [n for names_ in reg for n in names_] else "net0"):
                 yield {"part": "C", "child": me, "registered": reg, "bridged": True, "edges": "vm1",
@@ -652,7 +658,7 @@ def main():
     t0 = time.time()
     obligations, failures, seen_classes, counts, totals = {}, [], {}, {"A": 0, "B": 0, "C": 0}, {}
     cases, distinct, complete, samples = 0, set(), True, []
-    plan = (("A", gen_sync, 30000, 420), ("B", gen_scan, 20000, 150), ("C", gen_pull, 120000, 330)) if thorough else \
+    plan = (("A", gen_sync, 100000, 780), ("B", gen_scan, 20000, 120), ("C", gen_pull, 150000, 420)) if thorough else \
         (("A", gen_sync, 10 ** 6, 60), ("B", gen_scan, 10 ** 6, 25), ("C", gen_pull, 10 ** 6, 30))
     for part, gen, cap, budget in plan:
         inputs = list(gen(thorough, rnd))
